@@ -64,6 +64,15 @@ func runRead(rd io.Reader, cfg *sse.ReadConfig, stopAt int) (obs readObs) {
 		}
 	}()
 	var endErr error
+	var raw []obsEvent // the events as a caller that keeps them would see them later
+	defer func() {
+		for i := range raw {
+			if i < len(obs.Events) && raw[i] != obs.Events[i] {
+				obs.Proto = append(obs.Proto, fmt.Sprintf("event #%d changed after it was yielded: was %v, is now %v (strings alias a buffer that is reused)", i, obs.Events[i], raw[i]))
+				break
+			}
+		}
+	}()
 	sse.Read(rd, cfg)(func(e sse.Event, err error) bool {
 		if stopped {
 			obs.Proto = append(obs.Proto, "yield called after it returned false")
@@ -81,7 +90,8 @@ func runRead(rd io.Reader, cfg *sse.ReadConfig, stopAt int) (obs readObs) {
 			}
 			return true // keep going: a correct iterator stops by itself
 		}
-		obs.Events = append(obs.Events, obsEvent{e.LastEventID, e.Type, e.Data})
+		obs.Events = append(obs.Events, obsEvent{strings.Clone(e.LastEventID), strings.Clone(e.Type), strings.Clone(e.Data)})
+		raw = append(raw, obsEvent{e.LastEventID, e.Type, e.Data})
 		if stopAt >= 0 && len(obs.Events)-1 == stopAt {
 			stopped = true
 			return false
@@ -140,14 +150,22 @@ func runConn(rd io.Reader, buf []byte, maxSize int) (obs readObs) {
 		conn.Buffer(buf, maxSize)
 	}
 	returned := false
+	var raw []obsEvent
 	conn.SubscribeToAll(func(e sse.Event) {
 		if returned {
 			obs.Proto = append(obs.Proto, "callback after Connect returned")
 		}
-		obs.Events = append(obs.Events, obsEvent{e.LastEventID, e.Type, e.Data})
+		obs.Events = append(obs.Events, obsEvent{strings.Clone(e.LastEventID), strings.Clone(e.Type), strings.Clone(e.Data)})
+		raw = append(raw, obsEvent{e.LastEventID, e.Type, e.Data})
 	})
 	err := conn.Connect()
 	returned = true
+	for i := range raw {
+		if raw[i] != obs.Events[i] {
+			obs.Proto = append(obs.Proto, fmt.Sprintf("event #%d changed after it was passed to the callback: was %v, is now %v (strings alias a buffer that is reused)", i, obs.Events[i], raw[i]))
+			break
+		}
+	}
 	obs.Err = err
 	obs.Attempts = rt.attempts
 	if err == nil {
